@@ -5,6 +5,7 @@
 import PicoSVG.Proofs.PathForm
 import PicoSVG.Proofs.PathSim
 import PicoSVG.Proofs.PathSimAbs
+import PicoSVG.Proofs.PathSimShorthand
 import PicoSVG.Spec.Shapes
 
 set_option linter.unusedSectionVars false
@@ -58,6 +59,17 @@ theorem absolute_preserves_curve (tol : α) (hns : ∀ p q : Pt α, (p == q) = f
 theorem absolute_preserves_curve_exact (cmds out : List (Cmd α)) (segs : List (Spec.Seg α))
     (h : absolute (0 : α) cmds = .ok out) (hi : Spec.interp cmds = some segs) : Spec.interp out = some segs :=
   PathSim.absolute_interp 0 PathSim.no_snap_zero cmds out segs h hi
+
+/-- C09 (expand_shorthand): S/s/T/t become C/Q with the first control point SVG 8.3 prescribes — the reflection of the
+    previous control point after a curve of the same family (C/c/S/s for S, Q/q/T/t for T), the current point otherwise —
+    so the list of drawn segments is unchanged, for every command sequence the specification gives a meaning to, with
+    shorthand chains of any length and any mix of relative and absolute commands.  The invariant carried through the walk
+    is that the interpreter's remembered control point is what the last *emitted* command determines
+    (`PathSim.Inv`, `PathSim.prevCtrl_spec`).  (On the code before fix 41546f5 the model reflected after a curve of the
+    other family too and this statement is false: `M0,0 Q1,1 2,0 S3,1 4,0`.) -/
+theorem expandShorthand_preserves_curve (cmds out : List (Cmd α)) (segs : List (Spec.Seg α))
+    (h : expandShorthand cmds = .ok out) (hi : Spec.interp cmds = some segs) : Spec.interp out = some segs :=
+  PathSim.expandShorthand_interp cmds out segs h hi
 
 /-- any other rewrite built on the walk inherits the result as soon as its callback is sound command by command -/
 theorem sound_callback_preserves_curve (cb : Callback α) (hcb : PathSim.CbSound cb) (cmds out : List (Cmd α))
